@@ -33,65 +33,77 @@ func envaPart(r *ev.Report, dir string) {
 		install() // back to the in-memory peer
 	}()
 	var n int64
+	// thorough: the userinfo and fragment spellings too (9 times as many real connections)
+	decor := [][2]string{{"u:p@", "#frag"}}
+	if r.Thorough() {
+		decor = nil
+		for _, ui := range []string{"", "u@", "u:p@"} {
+			for _, fr := range []string{"", "#", "#frag"} {
+				decor = append(decor, [2]string{ui, fr})
+			}
+		}
+	}
 	for _, sch := range []string{"https://", "http://"} {
 		for _, h := range hosts {
 			for _, p := range pathAtoms {
 				for _, q := range queryAtoms {
-					if p.Bad || q.Bad {
-						continue
-					}
-					hostport := fmt.Sprintf("%s:%d", h, env.Port)
-					raw := sch + "u:p@" + hostport + p.Raw + q.Raw + "#frag"
-					u, err := url.Parse(raw)
-					if err != nil {
-						continue
-					}
-					jtp.VerifPurgeCache()
-					env.TakeConns()
-					var gerr error
-					crashed := func() (p bool) {
-						defer func() {
-							if x := recover(); x != nil {
-								// crashes are C05's and C06's subject; here the case simply gives no verdict
-								r.Note("enva: jtp.Get panicked on %q: %v", raw, x)
-								p = true
-							}
-						}()
-						_, _, gerr = jtp.Get(u, acceptAP, tolAP, 0)
-						return false
-					}()
-					conns := env.TakeConns()
-					n++
-					if crashed {
-						continue
-					}
-					if sch == "http://" {
-						if len(conns) != 0 {
-							r.Violation("enva:non-https-dialled", map[string]any{"url": raw, "msg": "a real connection was opened for an http URL"})
+					for _, dc := range decor {
+						if p.Bad || q.Bad {
+							continue
 						}
-						continue
+						hostport := fmt.Sprintf("%s:%d", h, env.Port)
+						raw := sch + dc[0] + hostport + p.Raw + q.Raw + dc[1]
+						u, err := url.Parse(raw)
+						if err != nil {
+							continue
+						}
+						jtp.VerifPurgeCache()
+						env.TakeConns()
+						var gerr error
+						crashed := func() (p bool) {
+							defer func() {
+								if x := recover(); x != nil {
+									// crashes are C05's and C06's subject; here the case simply gives no verdict
+									r.Note("enva: jtp.Get panicked on %q: %v", raw, x)
+									p = true
+								}
+							}()
+							_, _, gerr = jtp.Get(u, acceptAP, tolAP, 0)
+							return false
+						}()
+						conns := env.TakeConns()
+						n++
+						if crashed {
+							continue
+						}
+						if sch == "http://" {
+							if len(conns) != 0 {
+								r.Violation("enva:non-https-dialled", map[string]any{"url": raw, "msg": "a real connection was opened for an http URL"})
+							}
+							continue
+						}
+						if gerr != nil {
+							r.Violation("enva:fetch-failed", map[string]any{"url": raw, "msg": "fetch over real TLS failed: " + gerr.Error()})
+							continue
+						}
+						if len(conns) != 1 {
+							r.Violation("enva:connections", map[string]any{"url": raw, "msg": fmt.Sprintf("%d connections for one fetch", len(conns))})
+							continue
+						}
+						c := conns[0]
+						if !c.TLS {
+							r.Violation("enva:plaintext", map[string]any{"url": raw, "msg": "the first byte on the wire was not a TLS handshake record", "received": string(c.Received)})
+							continue
+						}
+						if !strings.EqualFold(c.SNI, h) {
+							r.Violation("enva:sni", map[string]any{"url": raw, "msg": fmt.Sprintf("SNI %q for host %q", c.SNI, h)})
+						}
+						want := "GET " + p.Wire + q.Wire + " HTTP/1.0\r\nHost: " + hostport + "\r\nAccept: " + acceptAP + "\r\n\r\n"
+						if string(c.Received) != want {
+							r.Violation("enva:request-bytes", map[string]any{"url": raw, "got": trunc(string(c.Received)), "want": trunc(want), "msg": "the bytes received inside TLS differ from request line + Host + Accept"})
+						}
+						r.Distinct("enva" + raw)
 					}
-					if gerr != nil {
-						r.Violation("enva:fetch-failed", map[string]any{"url": raw, "msg": "fetch over real TLS failed: " + gerr.Error()})
-						continue
-					}
-					if len(conns) != 1 {
-						r.Violation("enva:connections", map[string]any{"url": raw, "msg": fmt.Sprintf("%d connections for one fetch", len(conns))})
-						continue
-					}
-					c := conns[0]
-					if !c.TLS {
-						r.Violation("enva:plaintext", map[string]any{"url": raw, "msg": "the first byte on the wire was not a TLS handshake record", "received": string(c.Received)})
-						continue
-					}
-					if !strings.EqualFold(c.SNI, h) {
-						r.Violation("enva:sni", map[string]any{"url": raw, "msg": fmt.Sprintf("SNI %q for host %q", c.SNI, h)})
-					}
-					want := "GET " + p.Wire + q.Wire + " HTTP/1.0\r\nHost: " + hostport + "\r\nAccept: " + acceptAP + "\r\n\r\n"
-					if string(c.Received) != want {
-						r.Violation("enva:request-bytes", map[string]any{"url": raw, "got": trunc(string(c.Received)), "want": trunc(want), "msg": "the bytes received inside TLS differ from request line + Host + Accept"})
-					}
-					r.Distinct("enva" + raw)
 				}
 			}
 		}
